@@ -51,6 +51,19 @@ def gen_case(rng, root):
     if keep_own == "second":
         B["pubkeys"] = [shared.keyid, second.keyid]
         B["links"].append(scen.link_spec(second, rng.choice(["metablock", "dsse"]), B["name"], B["materials"], B["products"]))
+    multi = None
+    if n == 3 and rng.random() < 0.4:
+        # the same link presented for *both* other steps in one verification: the earlier of the two also has genuine
+        # evidence from a second functionary (so verification gets as far as the later one), the later has the replay only
+        c = [x for x in range(n) if x not in (a, b)][0]
+        first, later = sorted([b, c])
+        F, L = ch.steps[first], ch.steps[later]
+        F["pubkeys"] = [shared.keyid, second.keyid]
+        F["links"] = [dict(replay_link), scen.link_spec(second, rng.choice(["metablock", "dsse"]), F["name"], F["materials"], F["products"])]
+        L["pubkeys"] = [shared.keyid]
+        L["links"] = [dict(replay_link)]
+        keep_own = "second for the earlier step only"
+        multi = [F["name"], L["name"]]
     if how == "rename":
         A["links"] = []
     desc = {"steps": n, "from": A["name"], "to": B["name"], "how": how, "own_evidence": keep_own,
@@ -58,6 +71,8 @@ def gen_case(rng, root):
             "shared_functionary": "gpg master, signed by %s" % ("a subkey" if gpg_signer is not shared else "the master")
             if gpg_signer else shared.kind,
             "expected_accept": keep_own == "second" and how == "copy"}
+    if multi:
+        desc["to"] = multi
     return ch, desc
 
 
